@@ -181,12 +181,12 @@ func c04Digest(r *c04Result, relaxed bool) string {
 	return fmt.Sprintf("%016x-%016x", h.Sum64(), regsDigest(r.regs))
 }
 
-const c04Histories = 40
+const c04Histories = 161
 
 func runC04(c *CaseCtx) *CaseResult {
 	nh := c04Histories
 	if c.Tier == "thorough" {
-		nh = 200
+		nh = 801
 	}
 	hidx := c.Case % nh
 	group := c.Case / nh // the same history runs in several cases (different worker processes)
@@ -825,15 +825,15 @@ func init() {
 		}
 	}
 	register(&Prop{
-		ID: "C04", Level: "exploration", Run: runC04, Cases: cases(c04Histories*2, 200*3), MinNonTrivial: 8, Post: c04Post,
-		Rule: "each of 40 (quick) / 200 (thorough) seeded histories over 4 owner addresses (two differing only in the last byte, one with a high first byte, slab indexes starting just below 255 / 65535 / 2^32), nested inlined children, composite-typed maps, deletions, a reload point, is executed as replicas that vary worker count {1,2,3,8,64}, GOMAXPROCS {1,2,16}, scheduling jitter in ledger calls, object-pool state (GC twice / unrelated work first) " +
+		ID: "C04", Level: "exploration", Run: runC04, Cases: cases(c04Histories*2, 801*3), MinNonTrivial: 8, Post: c04Post,
+		Rule: "each of 161 (quick) / 801 (thorough) seeded histories over 4 owner addresses (two differing only in the last byte, one with a high first byte, slab indexes starting just below 255 / 65535 / 2^32), nested inlined children, composite-typed maps, deletions, a reload point, is executed as replicas that vary worker count {1,2,3,8,64}, GOMAXPROCS {1,2,16}, scheduling jitter in ledger calls, object-pool state (GC twice / unrelated work first) " +
 			"and PROCESS (the same history runs in 2 (quick) / 3 (thorough) different worker processes, 3 replicas each). Compared: for the deterministic commit the exact sequence of ledger writes/deletes (id, length, content hash) of every commit and strict ascending (owner bytes, index bytes) order; for the relaxed commit the multiset of writes; final registers byte-for-byte; map seeds. " +
 			"non-trivial = a commit with >=8 writes over >=2 owners incl. >=1 deletion was compared; distinct by (history, process group, digest)",
 		Assumptions: []string{"'all interleavings / all map iteration orders' is sampled by repetition across replicas and processes, not enumerated"},
 		Mandatory:   []string{"replicas", "histories-compared-across-processes", "commits-with-8-writes-2-owners-and-a-deletion", "distinct-relaxed-store-orders"},
 	})
 	register(&Prop{
-		ID: "C16", Level: "exploration", Run: runC16, Cases: cases(48, 320), MinNonTrivial: 8, Race: true,
+		ID: "C16", Level: "exploration", Run: runC16, Cases: cases(96, 480), MinNonTrivial: 8, Race: true,
 		Shards: func(string) int { return 8 },
 		Rule: "race-detector build (every report is a violation). Cases cycle over 4 modes: (1) FastCommit / NondeterministicFastCommit with workers {1,2,3,4,8,16,64} x GOMAXPROCS {1,2,4,16} x 3 jitter levels, jitter injected inside caller-supplied Storable.Encode and ledger calls, compared with a sequential re-implementation (sorted keys -> EncodeSlab -> store): registers, cache content, pending set, error; " +
 			"(2) BatchPreload with the same worker/GOMAXPROCS grid and jitter inside the storable decoder, shuffled ids incl. absent ones, compared with sequential decoding: cache ids + re-encoded bytes; (3) error paths: one failing storable, ledger failure on the k-th write while encoder workers are still busy (then retry must converge to the sequential reference), truncated register in preload; " +
